@@ -79,8 +79,13 @@ class C16(Prop):
     id = "C16"
     title = "saved values restore to equal values; saves are atomic; restore is robust"
     lean_modules = ["NV.C16.Props", "NV.C16.Witness"]
-    theorems = []
-    witness_theorems = []
+    theorems = ["NV.C16.Props." + t for t in (
+        "size_bounds_output", "saveVariable_no_crash", "saveObject_no_crash", "restore_total", "restoreObject_total",
+        "roundtrip_partial", "safe_restore_keeps_old_on_error", "restoreObject_error_keeps_variable", "save_atomic",
+        "save_complete", "save_atomic_failure", "statics_and_objects_not_persisted")]
+    witness_theorems = ["NV.C16.Witness." + t for t in (
+        "cr_comes_back_as_lf", "roundtripStr_Full_false", "stray_byte_alone_ok", "stray_byte_in_array_fails",
+        "inf_comes_back_as_zero", "inf_in_array_fails", "float_keys_collapse")]
     consts = [("maxSaveSvalueDepth", "MAX_SAVE_SVALUE_DEPTH")]
     const_headers = ["lib/efuns/options.h"]
     quick_n = 1500
@@ -89,10 +94,34 @@ class C16(Prop):
     design_ref = "5/C16"
     technique = ("Lean 4 proof (structural induction over values and over all byte strings) + translator-generated "
                  "constants + model/implementation correspondence under ASan/UBSan + crash-point enumeration")
-    level_text = ""
-    level_note = ""
-    rule = ""
-    not_covered = []
+    level_text = ("Lean 4 theorems about an executable model of save_svalue / svalue_save_size / restore_size / "
+                  "restore_internal_size / restore_array / restore_class / restore_mapping / restore_string / parse_numeric / "
+                  "restore_svalue / safe_restore_svalue and of the line format and call script of save_object / "
+                  "restore_object (lib/lpc/object.c, lib/lpc/mapping.c), for all values and ALL byte strings; floats and "
+                  "mblen are parameters with stated contracts; the model is tied to the source by regenerated constants and "
+                  "by running the real efuns and the model on the same generated values, truncated / mutated texts and "
+                  "crash points (traces identical); the Lean oracle judges every implementation trace")
+    level_note = ("trusted: Lean kernel; extract.py; the correspondence harness (differential: only generated cases; "
+                  "stdio-level interposition, rename() atomic by assumption); FloatOps / MbLen contracts are hypotheses "
+                  "(validated on generated floats / UTF-8 by the run); hash-table order of mappings is an arbitrary "
+                  "list order in the model; size limits of mappings, C stack depth and the heap are not modelled")
+    rule = ("cases = corpus + known-finding inputs + boundary list (int64 extremes, every byte 1..127 in strings at top "
+            "level / in arrays / as mapping key, escapes, integral / tiny / huge floats, empty containers, classes, "
+            "nesting 24..26, hand-made damaged texts, object files, crash points) + seeded random cases of five kinds: "
+            "round trips of random nested values; valid save texts mutated 1-3 times (truncate / replace / delete / "
+            "insert / duplicate / swap, biased to the format's special bytes); every prefix of a valid text; "
+            "save_object / restore_object incl. damaged files; crash-point and failure enumeration of save_object. "
+            "non-trivial = trace has >= 2 lines; distinct = distinct canonical implementation trace")
+    not_covered = ["mapping size limit (\"Mapping too large\") and out-of-memory paths of the restore are not modelled",
+                   "C stack exhaustion by deeply nested text (recursion depth = nesting depth) is not modelled",
+                   "hash-table layout of mappings (the order of entries in the saved text) is abstracted to a list order; "
+                   "traces are compared after sorting entries",
+                   "disk-full partial fprintf inside stdio buffers: failures / crashes are injected at stdio-call granularity",
+                   "non-UTF-8 multibyte locales (MbLen.cont fails for Big5/GBK/Shift-JIS; the driver always selects UTF-8)",
+                   "msameval() identifies a float key with the integer key of the same bit pattern (0.0 / 0): values "
+                   "with such key pairs are not generated",
+                   "float keys of mappings and valid non-ASCII UTF-8 strings are outside the round-trip THEOREM "
+                   "(correspondence only)"]
 
     def gen_extra(self, ctx, bdir):
         src = open(os.path.join(E.REPO, "lib/lpc/object.c")).read()
@@ -183,6 +212,19 @@ class C16(Prop):
             items.append((key, self.gen_value(rng, depth + 1, maxdepth)))
         return ("m", items)
 
+    def rx_ok(self, v):
+        """values whose python-made save text is unambiguous: no floats (text made by python's %g), no CR, ASCII"""
+        t = v[0]
+        if t == "f" or t == "o":
+            return False
+        if t == "s":
+            return all(b != 13 and b < 128 for b in v[1])
+        if t in "ac":
+            return all(self.rx_ok(x) for x in v[1])
+        if t == "m":
+            return all(self.rx_ok(k) and self.rx_ok(x) for k, x in v[1])
+        return True
+
     def nest(self, depth, kind="a"):
         v = ("i", 7)
         for i in range(depth):
@@ -231,7 +273,8 @@ class C16(Prop):
              '({\xe4\xb8\xad,})', "({\xff,})"]
         mk("restore-texts", ["rv " + t.encode("latin1").hex() for t in R])
         mk("restore-after-error", ["rv " + ("({({1,2,3,}),({" + "1," * 20000 + "}),})").encode().hex(),
-                                   "rv " + b"({1,2,})".hex(), "rv " + b"(/1,2,/)".hex(), "rt a[i1,i2]"])
+                                   "rx a[i1,i2] " + b"({1,2,})".hex(), "rx c(i1,i2) " + b"(/1,2,/)".hex(),
+                                   "rx m{i1:i2} " + b"([1:2,])".hex(), "rt a[i1,i2]"])
         # object level
         mk("object-basic", ["set i1 s61 a[i1,i2] i7 m{i1:i2}", "so 0", "set i2 i2 i2 i2 i2", "ro 0", "ro 1"])
         mk("object-zeros", ["set i0 i0 s i9 a[]", "so 0", "set i5 i6 i7 i8 i9", "ro 1", "ro 0", "set i0 i0 s i9 a[]",
@@ -289,7 +332,10 @@ class C16(Prop):
                 for _ in range(rng.weighted([(1, 6), (2, 3), (3, 1)])):
                     m = self.mutate_text(rng, m)
                 lines.append("rv " + m.hex())
-            lines.append("rt " + vtxt(self.gen_value(rng, 0, 2)))        # the driver still works afterwards
+            w = self.gen_value(rng, 0, 2)                                  # the driver still works afterwards:
+            if self.rx_ok(w):                                              # a valid text must restore to its value
+                lines.append("rx %s %s" % (vtxt(w), save_text(w).hex()))
+            lines.append("rt " + vtxt(w))
         elif kind == "trunc-all":
             v = self.gen_value(rng, 0, 3)
             if v[0] not in "amc":
